@@ -100,7 +100,7 @@ def main():
     WORK = os.path.join(c.scratch, "work")
     os.makedirs(WORK, exist_ok=True)
     probe = subprocess.run(["unshare", "-m", "sh", "-c", "mount --bind %s %s" % (src, WORK)], capture_output=True)
-    use_ns = probe.returncode == 0
+    use_ns = probe.returncode == 0 and not os.environ.get("VP_C07_NO_NS")
     nworkers = NCPU if use_ns else 1
 
     def run_in_work(sdir, timeout):
